@@ -1,6 +1,9 @@
 package docx
 
-import "encoding/xml"
+import (
+	"encoding/xml"
+	"fmt"
+)
 
 // XML namespaces used in DOCX files
 const (
@@ -52,12 +55,22 @@ type paragraphXML struct {
 // fields would drop the container's text or move it to the end of the paragraph.
 func (p *paragraphXML) UnmarshalXML(d *xml.Decoder, start xml.StartElement) error {
 	p.XMLName = start.Name
-	return p.decodeContent(d)
+	return p.decodeContent(d, 0)
 }
+
+// maxInlineDepth is how deep inline containers (<w:hyperlink>, <w:ins>, <w:sdt>,
+// <w:smartTag>, ...) may nest inside a paragraph (the limit encoding/xml applies
+// to the elements it unmarshals itself). Each level is one level of recursion in
+// decodeContent: a few million nested <w:ins>, some tens of KB as a compressed
+// document.xml, ended the process with a stack overflow.
+const maxInlineDepth = 10000
 
 // decodeContent reads child elements up to the end tag of the current element,
 // descending into inline containers.
-func (p *paragraphXML) decodeContent(d *xml.Decoder) error {
+func (p *paragraphXML) decodeContent(d *xml.Decoder, depth int) error {
+	if depth > maxInlineDepth {
+		return fmt.Errorf("inline containers nested deeper than %d levels", maxInlineDepth)
+	}
 	for {
 		token, err := d.Token()
 		if err != nil {
@@ -89,12 +102,12 @@ func (p *paragraphXML) decodeContent(d *xml.Decoder) error {
 					}
 				}
 				first := len(p.Runs)
-				if err = p.decodeContent(d); err == nil {
+				if err = p.decodeContent(d, depth+1); err == nil {
 					link.Runs = append(link.Runs, p.Runs[first:]...)
 					p.Hyperlinks = append(p.Hyperlinks, link)
 				}
 			case "ins", "moveTo", "sdt", "sdtContent", "smartTag", "fldSimple":
-				err = p.decodeContent(d)
+				err = p.decodeContent(d, depth+1)
 			default:
 				// Deleted text, properties of containers, bookmarks ends, ...
 				err = d.Skip()
